@@ -621,6 +621,57 @@ fn sig_mutations(rng: &mut ChaCha8Rng, body: &[u8], fs: &[Field], weight: u8) ->
             range_mutations(rng, body, f.off, f.len, dense, &mut out);
         }
     }
+    // structured changes of the signature VALUE: each MPI re-encoded (bit count corrected) with octets
+    // put in front of it or behind it — a different integer (r + k*2^(8n), 256*r + c), which a verifier
+    // that clamps or pads the scalar to the field size could mistake for the original
+    for f in fs.iter().filter(|f| f.name == "sigval") {
+        let field = &body[f.off..f.off + f.len];
+        // split into MPIs; only if the field is exactly a sequence of MPIs
+        let mut mpis: Vec<(usize, usize)> = Vec::new(); // (offset of the value octets in `field`, length)
+        let mut pos = 0usize;
+        let mut ok = true;
+        while pos < field.len() {
+            if pos + 2 > field.len() {
+                ok = false;
+                break;
+            }
+            let bits = u16::from_be_bytes([field[pos], field[pos + 1]]) as usize;
+            let n = bits.div_ceil(8);
+            if pos + 2 + n > field.len() {
+                ok = false;
+                break;
+            }
+            mpis.push((pos + 2, n));
+            pos += 2 + n;
+        }
+        if !ok || mpis.is_empty() {
+            continue;
+        }
+        for (mi, (voff, n)) in mpis.iter().enumerate() {
+            let value = &field[*voff..*voff + *n];
+            let mut variants: Vec<(String, Vec<u8>)> = Vec::new();
+            for front in [vec![0x01u8], vec![0x80], vec![0x01, 0x00], vec![0x01, 0x00, 0x00, 0x00, 0x00]] {
+                let mut v = front.clone();
+                v.extend_from_slice(value);
+                variants.push((format!("mpi{mi}:prepend={}", hx(&front)), v));
+            }
+            let mut v = value.to_vec();
+            v.push(0x00);
+            variants.push((format!("mpi{mi}:append=00"), v));
+            for (what, v) in variants {
+                let lead = v.first().copied().unwrap_or(0);
+                let bits = if v.is_empty() { 0 } else { (v.len() - 1) * 8 + (8 - lead.leading_zeros() as usize) };
+                let mut new_field = field[..*voff - 2].to_vec();
+                new_field.extend_from_slice(&(bits as u16).to_be_bytes());
+                new_field.extend_from_slice(&v);
+                new_field.extend_from_slice(&field[*voff + *n..]);
+                let mut o = body[..f.off].to_vec();
+                o.extend_from_slice(&new_field);
+                o.extend_from_slice(&body[f.off + f.len..]);
+                out.push(Mutn { desc: what, off: f.off + *voff, out: o });
+            }
+        }
+    }
     // truncations of the whole body at every field boundary and by one octet
     for f in fs {
         if f.off > 0 && f.off < body.len() {
